@@ -2476,7 +2476,10 @@ func (p *Parser) ParseOptionalTokenAndInt(t Token) (int, error) {
 	}
 
 	// Parse number.
-	n, _ := strconv.ParseInt(lit, 10, 64)
+	n, err := strconv.ParseInt(lit, 10, 64)
+	if err != nil {
+		return 0, &ParseError{Message: err.Error(), Pos: pos}
+	}
 	if n < 0 {
 		msg := fmt.Sprintf("%s must be >= 0", t.String())
 		return 0, &ParseError{Message: msg, Pos: pos}
